@@ -340,6 +340,12 @@ def run(ctx):
                              fi.where, witness(o.state, fi))
                 break
 
+    und = [o for o in outs if o.state.facts.get("wait_undrained")]
+    r4.check(not und, construct + "::drained", "the task's output pipes are read while it runs (communicate(), not a bare wait())",
+             f"the coroutine awaits proc.wait() (line {und[0].state.facts.get('wait_undrained') if und else ''}) while the stdout/stderr pipes are not being read: a script that prints more "
+             "than the pipe buffer blocks on write and never exits (or is killed by its time limit although it would have finished), and its output is lost",
+             fi.where, witness(und[0].state, fi) if und else None)
+
     # ---------------- R5 kill on abort paths
     r5 = ctx.rule("R5", "cancelled and timed-out tasks run the kill sequence on their process", min_instances=2)
     for cause_n, label in (("asyncio.exceptions.CancelledError", "cancellation"), ("builtins.TimeoutError", "time-out")):
